@@ -80,6 +80,7 @@ type rendered struct {
 }
 
 type fmtDef struct {
+	alt      *[6]string // alternative name table used by every other case (minimal-length and other boundary names)
 	name     string
 	path     string // production path of the document
 	names    [6]string
@@ -107,6 +108,7 @@ func same(s ...string) (out [5]verClass) {
 func ident(s string) string { return s }
 
 var pyNames = [6]string{"requests", "zope.interface", "typing_extensions", "Flask-SQLAlchemy", "ruamel.yaml.clib", "backports-zoneinfo"}
+var pyAltNames = [6]string{"q", "zope.interface", "x", "Flask-SQLAlchemy", "a.b", "z9"}
 var pyVers = []string{"2.31.0", "1.0.0rc1", "2.0.post1", "1!2.0", "1.0+local.1"}
 
 var allTrail = []string{"none", "nl", "blank"}
@@ -127,7 +129,7 @@ func init() {
 		rawOf: ident, mk: apk.NewDefault, render: renderApk, sects: 1,
 		trailing: []string{"nl", "blank"}, comments: []string{"none"}, variants: []string{"-"}})
 	reg(&fmtDef{name: "requirements", path: "requirements.txt",
-		names: pyNames, vers: same(pyVers...),
+		names: pyNames, alt: &pyAltNames, vers: same(pyVers...),
 		rawOf: ident, mk: requirements.NewDefault, render: renderRequirements, sects: 2, crlf: true,
 		trailing: allTrail, comments: []string{"none", "line", "inline"}, variants: []string{"-"}})
 	reg(&fmtDef{name: "gomod", path: "go.mod",
@@ -370,6 +372,11 @@ func init() {
 			fd := formats[c.Fmt]
 			if fd == nil {
 				return nil, fmt.Errorf("unknown format %q", c.Fmt)
+			}
+			if fd.alt != nil && idx%2 == 1 {
+				cp := *fd
+				cp.names = *fd.alt
+				fd = &cp
 			}
 			recs, err := concretise(fd, &c)
 			if err != nil {
